@@ -1,7 +1,7 @@
 (* Properties/C02.v — Parallel PBF decoding preserves file order under every schedule.
    Statements only; proofs are in Pipeline/Proofs*.v over the LTS of Pipeline/Model.v. *)
 From Coq Require Import ZArith List Bool Arith Lia.
-From Verif Require Import Pipeline.Model Pipeline.Exec Pipeline.ProofsBasic Pipeline.ProofsChain Pipeline.ProofsOrder Pipeline.ProofsLive Pipeline.ProofsErr Pipeline.Theorems Pipeline.Witness.
+From Verif Require Import Pipeline.Model Pipeline.Exec Pipeline.ProofsBasic Pipeline.ProofsChain Pipeline.ProofsOrder Pipeline.ProofsLive Pipeline.ProofsErr Pipeline.ProofsLive2 Pipeline.Theorems Pipeline.Witness.
 Import ListNotations.
 
 (* 1. THE ORDER THEOREM.  For every decoder count n >= 1, every input (blocks, undecodable blocks,
@@ -34,6 +34,26 @@ Theorem C02_no_deadlock : forall c s, wf_cfg c = true -> current c = true -> rea
   c_pc s <> CIdle -> exists l s' o, is_progress l = true /\ step c l s = Some (s', o).
 Proof. exact T_no_deadlock. Qed.
 Print Assumptions C02_no_deadlock.
+
+(* 2b. NO LIVELOCK: EVERY Next CALL RETURNS (Pipeline/ProofsLive2.v).  A potential [phi] (remaining
+   input, queue contents and pcs before cancellation; the cancellation measure afterwards, never
+   larger) strictly decreases on every goroutine step taken while the scanning goroutine is inside
+   Next.  Hence along ANY schedule (pipeline and consumer steps, cancellation from another
+   goroutine at any moment), as long as Next has not returned at most phi s goroutine steps have
+   happened and one more is enabled: the call returns whatever the scheduler does. *)
+Theorem C02_next_potential_decreases : forall c l s s' o, wf_cfg c = true -> current c = true ->
+  reach c s -> c_pc s = CNext -> c_pc s' = CNext -> is_progress2 l = true ->
+  step c l s = Some (s', o) -> phi c s' < phi c s.
+Proof. exact T_phi_decreases. Qed.
+Print Assumptions C02_next_potential_decreases.
+
+Theorem C02_next_returns : forall c sched s, wf_cfg c = true -> current c = true ->
+  reach c s -> c_pc s = CNext -> forallb next_label sched = true ->
+  c_pc (fst (run c sched s)) = CNext ->
+  ptaken2 c sched s <= phi c s /\
+  exists l s' o, is_progress l = true /\ step c l (fst (run c sched s)) = Some (s', o).
+Proof. exact T_next_returns. Qed.
+Print Assumptions C02_next_returns.
 
 (* 3. COMPLETES.  In a run without Close and without cancellation of the caller's context (header
    readable), a scan can only end with the file's own final error, after every element before it
